@@ -34,6 +34,11 @@ var c03Templates = []string{
 	"{% tablerow i in a cols: 2 %}{{ i }}{% endtablerow %}",
 	"{% for i in a %}{% cycle 'p', 'q', 'r' %}{% cycle 'g': '1', '2' %}{% if forloop.index == 2 %}{{ i | failing }}{% endif %}{% endfor %}",
 	"  lead {{ x -}} ",
+	// renders that END in a trim marker (also by failing right after it) followed by renders that BEGIN with whitespace
+	"{{ x -}}",
+	" a {%- if x -%} b {%- endif -%}",
+	"{{ x -}}{{ x | failing }} never",
+	"\n\t{{ x }}",
 	// thorough
 	"{{ ints | sort | join }}{{ strs | reverse | join }}{{ arr | sort | first }}{{ drop | sort | join }}{{ pst.A }}{{ st.C | sort | join }}",
 	"{{ ms | sort | join }}{{ rng | reverse | join }}{% for kv in m %}{{ kv[0] }}{% endfor %}{{ m.j | sort | join }}",
@@ -206,7 +211,7 @@ func firstDiff(a, b string) string {
 }
 
 func c03Families(tier string) []explore.Family {
-	nT, nB, depth := 16, 3, 2
+	nT, nB, depth := 20, 3, 2
 	if tier == "thorough" {
 		nT, nB, depth = len(c03Templates), 4, 3
 	}
@@ -314,7 +319,7 @@ func init() {
 	explore.Register(&explore.Prop{
 		ID:    "C03",
 		Level: "model_checking",
-		Rule: "explicit-state search over histories of renders R(t,b) on one shared world (one engine, templates parsed once, binding environments built once and shared by reference): all histories of length <=2 over 16 templates x 3 environments (quick) / <=3 over 26 x 4 (thorough), each replayed on a fresh world, plus 40-step round-robin histories from every starting operation; plus a family that keeps the []byte returned by a render of 0..2^20 bytes (13 sizes around 64, 4096, 65536) and re-reads it after later renders; " +
+		Rule: "explicit-state search over histories of renders R(t,b) on one shared world (one engine, templates parsed once, binding environments built once and shared by reference): all histories of length <=2 over 20 templates x 3 environments (quick) / <=3 over 30 x 4 (thorough), each replayed on a fresh world, plus 40-step round-robin histories from every starting operation; plus a family that keeps the []byte returned by a render of 0..2^20 bytes (13 sizes around 64, 4096, 65536) and re-reads it after later renders; " +
 			"templates cover assign of a bound name, capture, shadowing loops, cycle groups, nested loops with break, every array filter on bound arrays (incl. aliased sub-slices and spare capacity), include, a render failing half-way, tablerow, typed slices, structs, pointers, Drops, MapSlice, ranges; " +
 			"invariants after every step: deep snapshot of every environment unchanged (slices up to capacity, unexported fields, aliasing), result equals the solo result on a fresh engine/parse/bindings; structural changes of render trees / engine configuration are recorded (not alarms: the statement defines template immutability through re-render equality); state = canonical world snapshot after the history; transition = one render",
 		Assumptions: []string{
